@@ -9,10 +9,12 @@
 package main
 
 import (
+	"crypto/sha1"
 	"encoding/json"
 	"fmt"
 	"os"
 	"os/exec"
+	"path/filepath"
 	"sort"
 	"strings"
 	"unsafe"
@@ -42,6 +44,10 @@ var lib = map[string][2]string{
 	// identifiers that differ only in case (what one parse leaves behind must not rename another's)
 	"cs1": {"{{ Title }}/{{ Xs|length }}", "{{ TITLE }}"},
 	"cs2": {"{{ title }}/{{ xs|length }}", "{{ tiTle }}{% for I in xs %}{{ I }}{{ i }}{% endfor %}"},
+	// twin templates that differ only in a flag / argument of a construct the engine may memoise
+	// process-wide (compiled patterns, format strings, split separators)
+	"tw1": {"{{ Title matches '/^t1$/i' ? 'y' : 'n' }}|{{ 'a,b;c'|split(',')|length }}|{{ 1234.5|number_format(1, ',', '.') }}|{{ 'x-y'|replace('-', '+') }}", "{{ Title matches '/^T/' ? 'y' : 'n' }}"},
+	"tw2": {"{{ Title matches '/^t1$/' ? 'y' : 'n' }}|{{ 'a,b;c'|split(';')|length }}|{{ 1234.5|number_format(1, '.', ',') }}|{{ 'x-y'|replace('-', '*') }}", "{{ Title matches '/^t/' ? 'y' : 'n' }}"},
 }
 
 // deps: what a template needs registered besides itself (the pristine oracle registers only these,
@@ -49,7 +55,7 @@ var lib = map[string][2]string{
 var deps = map[string][]string{
 	"inc": {"a", "b"}, "child": {"base"}, "use": {"lib"}, "sb": {"a"}, "la": {"a"}, "lb": {"base"},
 }
-var names = []string{"a", "b", "loop", "inc", "base", "child", "lib", "use", "bad", "sb", "j", "um", "ub", "cs1", "cs2"}
+var names = []string{"a", "b", "loop", "inc", "base", "child", "lib", "use", "bad", "sb", "j", "um", "ub", "cs1", "cs2", "tw1", "tw2"}
 
 // templates served by an ArrayLoader (re-read when the cache is off)
 var loaded = map[string]string{
@@ -143,6 +149,16 @@ func expect(s *engState, n string, c int) string {
 	if v, ok := expCache[key]; ok {
 		return v
 	}
+	// answers are shared between the workers of this run through the run's scratch directory
+	var file string
+	if dir := vlib.Scratch(); dir != "" {
+		file = filepath.Join(dir, fmt.Sprintf("pristine-%x", sha1.Sum([]byte(key))))
+		if b, err := os.ReadFile(file); err == nil && len(b) > 0 && b[len(b)-1] == 0 {
+			v := string(b[:len(b)-1])
+			expCache[key] = v
+			return v
+		}
+	}
 	cmd := exec.Command(os.Args[0])
 	cmd.Env = append(os.Environ(), "C01_PRISTINE="+key)
 	out, err := cmd.Output()
@@ -152,6 +168,12 @@ func expect(s *engState, n string, c int) string {
 	}
 	v := string(out)
 	expCache[key] = v
+	if file != "" {
+		tmp := fmt.Sprintf("%s.%d", file, os.Getpid())
+		if os.WriteFile(tmp, append([]byte(v), 0), 0o644) == nil { // trailing NUL = complete
+			os.Rename(tmp, file)
+		}
+	}
 	return v
 }
 
@@ -373,7 +395,7 @@ func alphabet(thorough bool) []op {
 		a = append(a, op{Kind: "render", Name: n})
 	}
 	a = append(a, op{Kind: "render", Name: "a", Ctx: 1}, op{Kind: "render", Name: "la"}, op{Kind: "renderto", Name: "lb", Ctx: 2})
-	a = append(a, op{Kind: "renderkept"}, op{Kind: "render", Name: "cs2"}, op{Kind: "register", Name: "cs1", V: 1})
+	a = append(a, op{Kind: "renderkept"}, op{Kind: "render", Name: "cs2"}, op{Kind: "register", Name: "cs1", V: 1}, op{Kind: "render", Name: "tw1"}, op{Kind: "render", Eng: 1, Name: "tw2"})
 	a = append(a, op{Kind: "render", Eng: 1, Name: "child"})
 	for _, n := range []string{"a", "base", "lib"} {
 		a = append(a, op{Kind: "register", Name: n, V: 1})
@@ -431,6 +453,17 @@ func run(t *vlib.T) {
 	if t.Thorough() {
 		sweepCtxs = 3
 	}
+	// vacuity guard: a library template that errors in a pristine process compares "ERR" with "ERR"
+	t.Case("selfcheck/pristine-errors", func() *vlib.Outcome {
+		out := &vlib.Outcome{Nontrivial: true, Class: "selfcheck", Counters: map[string]int64{}}
+		def := &engState{reg: map[string]int{}, cacheOn: true}
+		for _, n := range names {
+			if n != "bad" && n != "um" && n != "ub" && expect(def, n, 0) == "ERR" { // bad, um, ub are meant to fail
+				out.Counters["library_templates_erroring_in_a_pristine_process"]++
+			}
+		}
+		return out
+	})
 	for _, b := range bounds(t.Tier()) {
 		b := b
 		var rec func(seq []op)
